@@ -47,6 +47,10 @@ func (r record) proj4() string {
 		fmt.Fprintf(&b, "+proj=merc +lon_0=%s +k_0=%s", g(r.Lon0), g(r.K0))
 	case "lcc", "aea", "eqdc":
 		fmt.Fprintf(&b, "+proj=%s +lat_1=%s +lat_2=%s +lat_0=%s +lon_0=%s", r.Proj, g(r.Lat1), g(r.Lat2), g(r.Lat0), g(r.Lon0))
+		if r.K0 != 0 {
+			// (a scale factor written out for a conic, as some .prj writers do)
+			fmt.Fprintf(&b, " +k_0=%s", g(r.K0))
+		}
 	case "tmerc":
 		fmt.Fprintf(&b, "+proj=tmerc +lat_0=%s +lon_0=%s +k=%s", g(r.Lat0), g(r.Lon0), g(r.K0))
 	}
@@ -141,6 +145,9 @@ func (r record) wktCompact() string {
 	case "tmerc":
 		name = "Transverse_Mercator"
 		ps = append(ps, par("latitude_of_origin", r.Lat0), par("central_meridian", r.Lon0), par("scale_factor", r.K0))
+	}
+	if r.K0 != 0 && (r.Proj == "aea" || r.Proj == "eqdc" || r.Proj == "lcc") {
+		ps = append(ps, par("scale_factor", r.K0))
 	}
 	ps = append(ps, par("false_easting", r.X0m/u), par("false_northing", r.Y0m/u))
 	if r.ParamsFirst {
@@ -256,6 +263,10 @@ func main() {
 		{Proj: "aea", Lat1: 50, Lat2: 58.5, Lat0: 45, Lon0: -126, X0m: 1000000, Y0m: 0},
 		{Proj: "aea", Lat1: 50, Lat2: 58.5, Lat0: 45, Lon0: -126, X0m: 1000000, Y0m: 0, Spelling: 1},
 		{Proj: "aea", Lat1: -18, Lat2: -36, Lat0: 0, Lon0: 132, X0m: 0, Y0m: 0},
+		// ... with a scale factor of 1 written out, in both parameter spellings
+		{Proj: "aea", Lat1: 50, Lat2: 58.5, Lat0: 45, Lon0: -126, X0m: 1000000, Y0m: 0, Spelling: 1, K0: 1},
+		{Proj: "eqdc", Lat1: 20, Lat2: 60, Lat0: 40, Lon0: -96, X0m: 400000, Y0m: 400000, Spelling: 1, K0: 1},
+		{Proj: "aea", Lat1: 50, Lat2: 58.5, Lat0: 45, Lon0: -126, X0m: 1000000, Y0m: 0, K0: 1},
 		{Proj: "eqdc", Lat1: 20, Lat2: 60, Lat0: 40, Lon0: -96, X0m: 0, Y0m: 0},
 		{Proj: "eqdc", Lat1: 20, Lat2: 60, Lat0: 40, Lon0: -96, X0m: 400000, Y0m: 400000, Spelling: 1},
 		{Proj: "tmerc", Lat0: 49, Lon0: -2, K0: 0.9996012717, X0m: 400000, Y0m: -100000},
